@@ -774,7 +774,10 @@ func verif_C11_rcptparams() {
 	}
 	reps[3] = reps[k]
 	ri := be.find("Rcpt", "b@v")
-	verifObserve("c11r", param, class, full, reps[3].code, ri >= 0)
+	// (the reply CLASS is observed, not the code: a value with a blank in it is
+	// two parameters, and which of them is refused first - 504 for the disabled
+	// one or 500 for the unknown one - follows Go's map iteration order)
+	verifObserve("c11r", param, class, full, reps[3].code/100, ri >= 0)
 	if class == vInvalid {
 		verifReach("C11.rcptparam-invalid")
 		verifAssert(reps[3].code/100 == 5 && ri < 0, "C11.bad-rcpt-parameter-refused-backend-not-called")
